@@ -1141,7 +1141,7 @@ Fixpoint follow (fuel : nat) (r : node) (c : ctx) {struct fuel} : ctx * option e
       | Some _ => (c, e)
       | None => ctx_set_path U c (dst r) (bufX c) (ins r)
       end
-    else if nonempty (dst r) && nonempty (src r) && static r then
+    else if nonempty (dst r) && static r then
       let c := w_lenBB c (S (lenBB c)) in
       ctx_set_path U c (dst r) (VBytes (src r)) (ins r)
     else if nonempty (dst r) && nonempty (src r) && negb (static r) then
